@@ -28,7 +28,6 @@ import (
 	"strconv"
 	"strings"
 	"sync"
-	"time"
 
 	"github.com/jdillenkofer/pithos/internal/storage"
 )
@@ -94,8 +93,8 @@ func c07Exec(st storage.Storage, b storage.BucketName, k storage.ObjectKey, op *
 		op.ifMatch = e
 		im = &e
 	}
-	op.start = time.Now().UnixNano()
-	defer func() { op.end = time.Now().UnixNano() }()
+	op.start = c12Mono()
+	defer func() { op.end = c12Mono() }()
 	switch op.kind {
 	case "put":
 		var opts *storage.PutObjectOptions
